@@ -300,7 +300,11 @@ VALUE_NODES = [('s', P + 'null', 'null'), ('s', P + 'int', '0'), ('s', P + 'int'
                ('s', P + 'float', '.nan'), ('s', P + 'float', '.inf'), ('s', P + 'int', '0x5'),
                ('s', P + 'timestamp', '2001-01-01'), ('q', P + 'seq', ()), ('m', P + 'map', ()),
                ('q', P + 'seq', (('s', P + 'int', '1'),)), ('m', P + 'map', ((('s', P + 'str', 'k'), ('s', P + 'int', '1')),)),
-               ('s', P + 'float', '5.0'), ('s', P + 'str', 'None')]
+               ('s', P + 'float', '5.0'), ('s', P + 'str', 'None'),
+               # collections carrying a core scalar tag (explicit tags in the document): never equal to a scalar default
+               ('q', P + 'null', (('s', P + 'int', '1'), ('s', P + 'int', '2'))), ('q', P + 'int', (('s', P + 'int', '5'),)),
+               ('m', P + 'float', ((('s', P + 'str', 'k'), ('s', P + 'int', '1')),)), ('q', P + 'bool', (('s', P + 'bool', 'true'),)),
+               ('q', P + 'str', (('s', P + 'str', 'abc'),)), ('m', P + 'null', ((('s', P + 'str', 'k'), ('s', P + 'int', '1')),))]
 
 
 def kind_of(x):
